@@ -2394,6 +2394,19 @@ coap_io_do_epoll_lkd(coap_context_t *ctx, struct epoll_event *events, size_t nev
 
   coap_lock_check_locked(ctx);
   coap_ticks(&now);
+#if COAP_THREAD_SAFE
+  /*
+   * Handlers can run with the lock released. Hold on to every session whose
+   * socket is in events[] until all events are done, so that another thread
+   * cannot free one that has not been looked at yet.
+   */
+  for (j = 0; j < nevents; j++) {
+    coap_socket_t *sock = (coap_socket_t *)events[j].data.ptr;
+
+    if (sock && !sock->endpoint && sock->session)
+      coap_session_reference_lkd(sock->session);
+  }
+#endif /* COAP_THREAD_SAFE */
   for (j = 0; j < nevents; j++) {
     coap_socket_t *sock = (coap_socket_t *)events[j].data.ptr;
 
@@ -2480,6 +2493,14 @@ coap_io_do_epoll_lkd(coap_context_t *ctx, struct epoll_event *events, size_t nev
       }
     }
   }
+#if COAP_THREAD_SAFE
+  for (j = 0; j < nevents; j++) {
+    coap_socket_t *sock = (coap_socket_t *)events[j].data.ptr;
+
+    if (sock && !sock->endpoint && sock->session)
+      coap_session_release_lkd(sock->session);
+  }
+#endif /* COAP_THREAD_SAFE */
   /* And update eptimerfd as to when to next trigger */
   coap_ticks(&now);
   coap_io_prepare_epoll_lkd(ctx, now);
